@@ -68,7 +68,17 @@ def cases(tier, seed):
     if tier == 'quick':
         idx = rng.choice(len(user), 250, replace=False)
         user = [user[i] for i in idx]
-    cs += st + user
+    # the caller may pass the offsets in any order: permute (every permutation for <= 4 offsets in thorough, seeded ones otherwise)
+    perm_user = []
+    for u in user:
+        k = len(u['steps'])
+        if tier == 'thorough' and k <= 4:
+            for pm in itertools.permutations(u['steps']):
+                perm_user.append(dict(u, steps=list(pm)))
+        else:
+            for _ in range(2):
+                perm_user.append(dict(u, steps=[int(x) for x in rng.permutation(u['steps'])]))
+    cs += st + user + perm_user
     # --- matrix cases
     mats = []
     bcs = ['periodic', 'dirichlet', 'neumann', ('dirichlet', 'neumann'), ('neumann', 'dirichlet')]
@@ -103,6 +113,31 @@ def cases(tier, seed):
                     for dim in (2, 3):
                         n = len(expected_steps(d, order, typ))
                         nd.append(dict(kind='matrix', d=d, order=order, typ=typ, bc=bc, reduce=False, size=n + 1, dim=dim))
+    for um in list(usermats):
+        usermats.append(dict(um, steps=[int(x) for x in rng.permutation(um['steps'])]))
+    sides = []
+    for d in range(1, 4):
+        for order in range(1, 7):
+            for typ in ('center', 'upwind'):
+                if not admissible(d, order, typ):
+                    continue
+                n = len(expected_steps(d, order, typ))
+                for bc in ('dirichlet', 'neumann', ('dirichlet', 'neumann'), ('neumann', 'dirichlet')):
+                    for rep in range(2):
+                        sp = []
+                        for iS in (0, 1):
+                            pdict = {}
+                            if rng.random() < 0.6:
+                                pdict['val'] = True
+                            if rng.random() < 0.5 and typ == 'center' and d <= 2:
+                                pdict['reduce'] = bool(rng.random() < 0.6)
+                            if rng.random() < 0.4:
+                                pdict['neumann_bc_order'] = int(rng.integers(1, 5))
+                            sp.append(pdict)
+                        sides.append(dict(kind='sides', d=d, order=order, typ=typ, bc=bc, size=int(n + 4 + rng.integers(0, 6)), sp=sp, dx=float(rng.choice([1.0, 0.5, 0.125, 0.3])), _cost=n * 20))
+    if tier == 'quick':
+        sides = [sides[i] for i in rng.choice(len(sides), 200, replace=False)]
+    cs += sides
     if tier == 'quick':
         mats = [mats[i] for i in rng.choice(len(mats), 500, replace=False)]
         usermats = [usermats[i] for i in rng.choice(len(usermats), 300, replace=False)]
@@ -330,6 +365,106 @@ def run_matrix(case, r):
     r.sample = dict(case=_pub(case), zone_rows=len(zone))
 
 
+def pmul(a, b):
+    out = [Fr(0)] * (len(a) + len(b) - 1)
+    for i, x in enumerate(a):
+        for j, y in enumerate(b):
+            out[i + j] += x * y
+    return out
+
+
+def pval(c, x):
+    v = Fr(0)
+    for a in reversed(c):
+        v = v * x + a
+    return v
+
+
+def pder(c, n=1):
+    for _ in range(n):
+        c = [c[i] * i for i in range(1, len(c))] or [Fr(0)]
+    return c
+
+
+def ppow(x0, k):
+    out = [Fr(1)]
+    for _ in range(k):
+        out = pmul(out, [-x0, Fr(1)])
+    return out
+
+
+def run_sides(case, r):
+    """per-side boundary parameter dictionaries with keys present or omitted independently on each side: an omitted key must
+    mean the documented default (val=0, reduce=False, neumann_bc_order=order) whatever the other side says"""
+    from pySDC.helpers.problem_helper import get_finite_difference_matrix
+
+    d, order, typ, size, dx = case['d'], case['order'], case['typ'], case['size'], case['dx']
+    bc = tuple(case['bc']) if isinstance(case['bc'], list) else case['bc']
+    bcs = bc if isinstance(bc, tuple) else (bc, bc)
+    sp = case['sp']
+    what = f'sides d={d} order={order} {typ} size={size} dx={dx} bc={bc} params={sp}'
+    r.key = what
+    exp = expected_steps(d, order, typ)
+    DX = Fr(dx)
+    xs = [DX * (i + 1) for i in range(size)]
+    xb = [Fr(0), DX * (size + 1)]
+    wL, wR = max(0, -min(exp)), max(0, max(exp))
+    eff = [dict(reduce=bool(p_.get('reduce', False)), nbo=int(p_.get('neumann_bc_order', order)), has_val='val' in p_) for p_ in sp]
+    if any(e['nbo'] > size for e in eff):
+        r.check(True, 'noop', '')
+        return
+    zone = [(i, 0) for i in range(wL)] + [(size - 1 - i, 1) for i in range(wR)]
+    for (row, iS) in zone:
+        side = bcs[iS]
+        i = row if iS == 0 else size - 1 - row
+        e = eff[iS]
+        Drow = (d + 2 * (i + 1) - 1) if e['reduce'] else (d + order - 1)
+        if 'neumann' in side:
+            Drow = min(Drow, e['nbo'])
+        xc = xs[row]
+        for k in range(Drow + 1):
+            # polynomial of degree k; if this side omits 'val' it must have a zero boundary datum on this side,
+            # and on the other side the datum is whatever (its value is passed if that side takes 'val', else forced to zero too)
+            poly = ppow(xc, k)
+            need = []
+            for s_ in (0, 1):
+                if not eff[s_]['has_val']:
+                    need.append(s_)
+            deg_lost = 0
+            poly = [Fr(1)]
+            for s_ in need:
+                mult = 1 if 'dirichlet' in bcs[s_] else 2
+                poly = pmul(poly, ppow(xb[s_], mult))
+                deg_lost += mult
+            if deg_lost > k:
+                if k == 0 and all('neumann' in bcs[s_] for s_ in need):
+                    poly = [Fr(1)]  # constants have zero Neumann datum
+                else:
+                    continue
+            else:
+                poly = pmul(poly, ppow(xc, k - deg_lost))
+            pars = []
+            for s_ in (0, 1):
+                pd = {}
+                if 'val' in sp[s_]:
+                    pd['val'] = float(pval(poly, xb[s_]) if 'dirichlet' in bcs[s_] else pval(pder(poly), xb[s_]))
+                if 'reduce' in sp[s_]:
+                    pd['reduce'] = sp[s_]['reduce']
+                if 'neumann_bc_order' in sp[s_]:
+                    pd['neumann_bc_order'] = sp[s_]['neumann_bc_order']
+                pars.append(pd)
+            A, b = get_finite_difference_matrix(derivative=d, order=order, stencil_type=typ, dx=dx, size=size, dim=1, bc=bc, bc_params=pars)
+            A = A.toarray()
+            got = sum(Fr(float(A[row, j])) * pval(poly, xs[j]) for j in range(size) if A[row, j] != 0) + Fr(float(b[row]))
+            exact = pval(pder(poly, d), xc)
+            mag = sum(abs(float(A[row, j])) * abs(float(pval(poly, xs[j]))) for j in range(size)) + abs(float(b[row])) + 1.0
+            err = abs(float(got - exact))
+            r.check(err <= 1e-8 * mag, 'closure-exact-per-side-params', f'{what}: boundary row {row} (side {iS}: {side}, effective {e}) does not reproduce the derivative of a degree-{k} polynomial: off by {err:.3e} (magnitude {mag:.2e}, designed degree {Drow})', row=row, degree=k)
+            r.nontrivial = True
+    r.observe('sides', f'{bc}')
+    r.sample = dict(case=_pub(case))
+
+
 def run_grid(case, r):
     from pySDC.helpers.problem_helper import get_1d_grid
 
@@ -358,6 +493,8 @@ def run_case(case):
         run_stencil(case, r)
     elif case['kind'] == 'matrix':
         run_matrix(case, r)
+    elif case['kind'] == 'sides':
+        run_sides(case, r)
     else:
         run_grid(case, r)
     r.count('kind:' + case['kind'])
@@ -367,7 +504,7 @@ def run_case(case):
 def finalize(agg):
     out = []
     c = agg['counters']
-    for k in ('oracle:stencil-moments', 'oracle:periodic-circulant', 'oracle:interior-rows', 'oracle:closure-exact', 'oracle:nd-kronecker', 'oracle:grid-points'):
+    for k in ('oracle:stencil-moments', 'oracle:periodic-circulant', 'oracle:interior-rows', 'oracle:closure-exact', 'oracle:nd-kronecker', 'oracle:grid-points', 'oracle:closure-exact-per-side-params'):
         if c.get(k, 0) == 0:
             out.append(f'monitor {k} never evaluated')
     return out
